@@ -8,6 +8,8 @@ from . import ops as opsmod
 from .arkcurve import base_preludes, CURVE_LEMMAS
 
 R12 = "#[verifier::exec_allows_no_decreases_clause]"
+# local-free stepping stone: the specification's answer for this input meets the four-case contract (instance of M-SQRT)
+ISQ_HINT = ' proof { assert(isqrt_ok(1, self.val(), isqrt_flag(1, self.val()), isqrt_root(1, self.val()))); }'
 EXT = "src/ark_curve/r1cs/fqvar_ext.rs"
 INN = "src/ark_curve/r1cs/inner.rs"
 
@@ -62,6 +64,33 @@ pub broadcast proof fn lemma_cancel(z: int, di: int, d: int)
     vstd::arithmetic::div_mod::lemma_mul_mod_noop_general(z, d * di, p);
     vstd::arithmetic::div_mod::lemma_small_mod(z as nat, p as nat);
     assert(z * 1 == z);
+}
+// the case analysis behind the four-case constraint block of `isqrt` (soundness reading), proved once and for all:
+// x the input, (ws, y) ANY witnessed pair, inv the witnessed inverse of (x == 0 ? 1 : x)
+pub proof fn lemma_isqrt_sound(x: int, ws: bool, y: int, inv: int)
+    requires in_fq(x), in_fq(y), in_fq(inv),
+        fmul(if x == 0 { 1 } else { x }, inv) == 1,
+        ws ==> fsq(y) == inv,
+        (!ws && x == 0) ==> fsq(y) == 0,
+        (!ws && x != 0) ==> fsq(y) == fmul(ZETA_(), inv),
+    ensures isqrt_weak(x, ws, y), x != 0 ==> isqrt_ok(1, x, ws, y), !ws ==> isqrt_ok(1, x, ws, y)
+{
+    if ws {
+        if x == 0 {
+            lemma_fmul_one(inv);
+            assert(fsq(y) == 1);
+        } else {
+            assert(fmul(inv, x) == fmul(x, inv)) by { assert(inv * x == x * inv) by(nonlinear_arith); }
+            assert(fmul(fsq(y), x) == 1);
+        }
+    } else if x == 0 {
+        m_prime_no_zero_div(y, y);
+        assert(y == 0);
+    } else {
+        lemma_cancel(ZETA_(), inv, x);
+        lemma_fmul_one(ZETA_());
+        assert(fmul(fsq(y), x) == fmul(ZETA_(), 1));
+    }
 }
 pub broadcast proof fn lemma_fmul_one(a: int)
     requires in_fq(a)
@@ -136,24 +165,31 @@ def unit(mode):
     def ext(fn):
         items.append(Item(EXT, hdr, [fn], header_out="impl FqVar"))
     if sound:
-        ext(Fn("isqrt", props=(tag,), preamble=bu + " broadcast use lemma_cancel, lemma_fmul_one, m_prime_no_zero_div;", subst=r9,
+        # R20: name the results of the three witness-producing calls (whatever the locals are called) for the lemma call
+        cap = [("R20", r'(Boolean::new_witness\((?:[^()]|\((?:[^()]|\([^()]*\))*\))*\))\?', r'{ let c_ = \1?; proof { gws_ = c_.bval(); } c_ }'),
+               ("R20", r'(FqVar::new_witness\((?:[^()]|\((?:[^()]|\([^()]*\))*\))*\))\?', r'{ let c_ = \1?; proof { gy_ = c_.val(); } c_ }'),
+               ("R20", r'(\w+)\.inverse\(\)\?', r'{ let c_ = \1.inverse()?; proof { ginv_ = c_.val(); } c_ }')]
+        bus = "broadcast use fq_abs, r1cs_axioms, ad_consts; proof { isqrt_spec_ok(1, self.val()); } let ghost mut gws_: bool = false; let ghost mut gy_: int = 0; let ghost mut ginv_: int = 0;"
+        ext(Fn("isqrt", props=(tag,), preamble=bus, subst=r9 + cap, before_tail="lemma_isqrt_sound(self.val(), gws_, gy_, ginv_);",
                ensures="match r { Ok(p) => isqrt_weak(self.val(), p.0.bval(), p.1.val()), Err(_) => true }",
                tag="what the constraint block enforces; the strict contract is the obligation isqrt#strict below"))
-        ext(Fn("isqrt", props=(tag,), preamble=bu + " broadcast use lemma_cancel, lemma_fmul_one, m_prime_no_zero_div;", subst=r9, variant="#strict",
+        ext(Fn("isqrt", props=(tag,), preamble=bus, subst=r9 + cap, before_tail="lemma_isqrt_sound(self.val(), gws_, gy_, ginv_);", variant="#strict",
                ensures="match r { Ok(p) => isqrt_ok(1, self.val(), p.0.bval(), p.1.val()), Err(_) => true }", cover=False,
                tag="the four-case contract of the specification for EVERY satisfying assignment (C14); known finding D6"))
         ext(Fn("is_nonnegative", props=(tag,), preamble=bu, ensures="match r { Ok(b) => b.bval() == !is_neg(self.val()), Err(_) => true }"))
         ext(Fn("is_negative", props=(tag,), preamble=bu, ensures="match r { Ok(b) => b.bval() == is_neg(self.val()), Err(_) => true }"))
         ext(Fn("abs", props=(tag,), preamble=bu, ensures="match r { Ok(x) => x.val() == fabs(self.val()), Err(_) => true }"))
     else:
-        ext(Fn("isqrt", props=(tag,), preamble=bu + " broadcast use lemma_div_unique, lemma_div_c, lemma_fmul_one;", subst=r9,
+        ext(Fn("isqrt", props=(tag,), preamble=bu + " broadcast use lemma_div_unique, lemma_div_c, lemma_fmul_one;" + ISQ_HINT, subst=r9,
                ensures="match r { Ok(p) => p.0.bval() == isqrt_flag(1, self.val()) && p.1.val() == isqrt_root(1, self.val()), Err(_) => false }"))
         ext(Fn("is_nonnegative", props=(tag,), preamble=bu, ensures="match r { Ok(b) => b.bval() == !is_neg(self.val()), Err(_) => false }"))
         ext(Fn("is_negative", props=(tag,), preamble=bu, ensures="match r { Ok(b) => b.bval() == is_neg(self.val()), Err(_) => false }"))
         ext(Fn("abs", props=(tag,), preamble=bu, ensures="match r { Ok(x) => x.val() == fabs(self.val()), Err(_) => false }"))
     inn_subst = [("R8", r'\bns!\(\s*(\w+)\s*,\s*"[^"]*"\s*\)', r'\1.clone()'),
                  ("R7", r'\bAffineVar::new\(', 'Decaf377EdwardsVar::new(')]
-    bui = bu + " broadcast use lemma_cancel, lemma_fmul_one;"
+    # the soundness reading of the inner gadgets never looks inside isqrt_flag / isqrt_root: leaving M-SQRT out of their
+    # broadcast set keeps the queries small (with it, elligator_map went from 1.3M to 354M resource units)
+    bui = (bu.replace("isqrt_spec_ok, ", "") if sound else bu) + " broadcast use lemma_cancel, lemma_fmul_one;"
 
     def inn(fn, hdr="impl ElementVar", **kw):
         fn = dataclasses.replace(fn, subst=list(fn.subst) + inn_subst)
@@ -179,6 +215,7 @@ def unit(mode):
                 assert(pv(*e) == spec_decode_v({S_}, gv_)); assert(isqrt_weak(dec_den({S_}), true, gv_));
                 if dec_den({S_}) != 0 {{
                     let dd = dec_den({S_}); let rt = isqrt_root(1, dd);
+                    isqrt_spec_ok(1, dd);
                     m_isqrt_unique(dd, true, gv_, isqrt_flag(1, dd), rt);
                     if gv_ != rt {{ m_decaf_dec_root_indep({S_}, rt); }}
                     assert(fmul(pv(*e).x, pv(*e).y) == fmul(pv(*e).y, pv(*e).x));
@@ -225,6 +262,7 @@ def unit(mode):
              items=items, lemmas=lem + R1CS_LEMMAS + (COMPL_LEMMAS if not sound else ""), params=fq, global_subst=common_subst)
     u.raw = [(INN, "struct", "ElementVar")]
     u.raw_strip = ("Clone",)
+    u.tail_assert = True     # R24
     return u
 
 
